@@ -3,7 +3,7 @@
 From Coq Require Extraction.
 From Coq Require Import ExtrOcamlBasic.
 From Coq Require Import List NArith ZArith.
-From YV Require Import Lib.Bytes Ids.Ranges Codec.Varint Codec.AnyCodec Codec.IdSetCodec Codec.UpdateV1 Codec.V2Cols Codec.UpdateV2 Codec.Messages Codec.Cells Crdt.Doc Crdt.Local Crdt.Events Crdt.Undo OpSet.Awareness.
+From YV Require Import Lib.Bytes Ids.Ranges Codec.Varint Codec.AnyCodec Codec.IdSetCodec Codec.UpdateV1 Codec.V2Cols Codec.UpdateV2 Codec.Messages Codec.Cells Crdt.Doc Crdt.Local Crdt.Links Crdt.Events Crdt.Undo OpSet.Awareness.
 Extraction Language OCaml.
 Extraction "model.ml"
   N.add N.mul N.sub N.div_eucl N.eqb N.ltb N.leb N.of_nat N.to_nat
@@ -21,4 +21,5 @@ Extraction "model.ml"
   change_set seq_exact swf seq_before seq_after keys_change key_exact kwf key_before key_after text_delta text_exact twf path_index
   ustate0 uact undo redo live_entries uvisible
   input_of into_any output_of read_back jwf
+  lk_should_notify lk_next_registered lk_initial_registered
   ueq umerge idset_insert idset_insert_range attrs_eq attrs_merge idattr_insert idattr_remove idattr_as_set.
